@@ -28,7 +28,10 @@ const SYMBOLS: [&str; 21] = [
     // tokens that start like a number and end in a multi-byte character
     "-λ", "+∞", "2π", "1+", "-x🐶",
 ];
-const STRINGS: [(&str, &str); 9] = [
+const STRINGS: [(&str, &str); 12] = [
+    ("\"tail\\\"\"", "tail\""),
+    ("\"\\\"\"", "\""),
+    ("\"a\\\\\"", "a\\"),
     ("\"\"", ""),
     ("\"abc\"", "abc"),
     ("\"a b\"", "a b"),
